@@ -6,8 +6,8 @@
     ids, [run step sched state threads] executes it; every theorem quantifying over [sched] and the
     thread list holds for every interleaving of any number of goroutines. *)
 From Coq Require Import String List NArith Bool Arith Permutation.
-From Fabio Require Import Lib.Outcome Lib.Bytes Model.Interleave Model.GlobCacheC06 Model.GlobCacheFine Model.Access Model.AccessC06
-  Proofs.Interleave Proofs.GlobCacheC06 Proofs.GlobCacheFine Proofs.InterleaveMore.
+From Fabio Require Import Lib.Outcome Lib.Bytes Model.Interleave Model.GlobCacheC06 Model.GlobCacheFine Model.Access Model.AccessC06 Model.LookupConc
+  Proofs.Interleave Proofs.GlobCacheC06 Proofs.GlobCacheFine Proofs.InterleaveMore Proofs.LookupConc.
 Import ListNotations.
 
 (* ---- the host-pattern cache, one goroutine at a time ---- *)
@@ -133,6 +133,31 @@ Theorem C06_window_is_slots : forall (ring : list nat) c j, ring <> [] -> (c + N
 Proof. exact window_is_slots_l. Qed.
 Print Assumptions C06_window_is_slots.
 
+(* COMPOSED with C06_rr_atomic_exact - the clause "under any interleaving round-robin still hands each target
+   its exact share of the lookups performed": fresh goroutines, ANY schedule, any split of the picks among
+   them: when k*len lookups have been performed target t has been returned exactly k x (its ring slots) times
+   ([pickv ring d x] is what the pick that drew cursor value x returns: C06_picks_are_slots) *)
+Theorem C06_rr_exact_share_every_schedule : forall sched (ring : list nat) d c ts k t,
+  (c < two64)%N -> ring <> [] -> all_seen ts = [] ->
+  length (all_seen (snd (run rr_step_atomic sched c ts))) = k * length ring ->
+  (c + N.of_nat (k * length ring) <= two64)%N ->
+  count_nat t (map (pickv ring d) (all_seen (snd (run rr_step_atomic sched c ts)))) = k * count_nat t ring.
+Proof. exact rr_exact_share_every_schedule_l. Qed.
+Print Assumptions C06_rr_exact_share_every_schedule.
+
+(* ... and for ANY number of lookups (not a multiple of the ring length): between floor and ceil of the number
+   of turns, times the slots - for an unweighted route (one slot per target): the counts of any two targets
+   differ by at most one.  (That a weighted ring spreads a target's slots evenly, which would make this the
+   floor/ceil of the configured share, is C04's subject.) *)
+Theorem C06_rr_share_bounds_every_schedule : forall sched (ring : list nat) d c ts t,
+  (c < two64)%N -> ring <> [] -> all_seen ts = [] ->
+  let picks := all_seen (snd (run rr_step_atomic sched c ts)) in
+  (c + N.of_nat (length picks) <= two64)%N ->
+  (length picks / length ring) * count_nat t ring <= count_nat t (map (pickv ring d) picks)
+  /\ count_nat t (map (pickv ring d) picks) <= (length picks / length ring + 1) * count_nat t ring.
+Proof. exact rr_share_bounds_every_schedule_l. Qed.
+Print Assumptions C06_rr_share_bounds_every_schedule.
+
 (* ---- round robin concurrent with table replacement ---- *)
 (* route.SetTable is ONE atomic publication; a table is immutable afterwards except for its own cursors,
    which only lookups advance; a lookup is GetTable (one atomic load) then the fetch-and-add on the route of
@@ -175,6 +200,8 @@ Proof. exact @rnd_pick_member_l. Qed.
 Print Assumptions C06_rnd_pick_member.
 
 (* ---- the redirect URL: the code as it is (fix ddf101c: built on a per-request copy of the target) ---- *)
+(* (true by the shape of the model: [rd_step] works on the goroutine's own object; all the content is in the choice of
+   [rd_step] over [rd_step_unrepaired], which the forced-schedule, serial-history and stress classes tie to the code) *)
 (* EVERY schedule, any number of requests, any template ($path, $host, both, none): the shared state is
    never written, and every request that has been answered got the URL made from ITS own path and Host *)
 Theorem C06_redirect_every_schedule : forall tmpl sched reqs,
@@ -215,6 +242,8 @@ Proof. exact redirect_static_every_schedule_l. Qed.
 Print Assumptions C06_redirect_static_every_schedule.
 
 (* ---- the access decision ---- *)
+(* (true by the shape of the model: [ac_step] reads the rule map and writes nothing shared - AccessDeniedHTTP keeps
+   nothing between calls; the tie to the code is the access-history classes, sequential and concurrent) *)
 (* The verdict is C12's access function ([access_denied_http]: rule map, peer address, X-Forwarded-For values;
    net.ParseIP / net.SplitHostPort are parameters).  Any number of requests against one target, EVERY
    schedule: the rule map is never written, and the verdict each request receives is the access function of
@@ -264,3 +293,30 @@ Theorem C06_lookup_frame : forall hosts path host proto s,
               /\ touched path host proto hosts 0 (fst (lookup hosts path host proto s)) id).
 Proof. exact lookup_frame_l. Qed.
 Print Assumptions C06_lookup_frame.
+
+(* ---- the composed concurrent lookup ---- *)
+(* Model/LookupConc.v: one request = GetTable; for every host pattern of the loaded table a Get on the SHARED glob
+   cache (the coarse two-action machine), the returned glob deciding whether the host is a candidate; one
+   fetch-and-add per visited candidate route on the cursor of that route OF THE LOADED TABLE; redirect URL and
+   self-redirect skip on a per-request copy; writers publish new tables by one atomic SetTable.
+   Any number of requests and table replacements, a cache of any size > 0, [hmatch] any glob semantics,
+   EVERY schedule: a request that has been answered got exactly the pure lookup over those hosts of the table
+   IT loaded whose PATTERN matches its host - whatever the cache contained and whoever else used it - with the
+   cursor values it drew: a function of the request, that table and those cursor values, and of nothing else.
+   (Here non-interference is a THEOREM about a machine in which the requests do share the cache, the cursors and
+   the table pointer; C06_access_every_schedule and C06_redirect_every_schedule above are true by the shape
+   of their step functions - the access check and the redirect build touch no shared state in the model - and
+   their tie to the code is the forced-schedule, history and stress classes of the correspondence run.) *)
+Theorem C06_lookup_conc_every_schedule : forall hmatch size sched tb0 reqs tbs, 0 < size ->
+  let s0 := {| cm_cur := 0; cm_tables := [tb0]; cm_cursor := fun _ _ => 0%N; cm_cache := gc_new size |} in
+  let r := run (c_step hmatch) sched s0 (map c_init reqs ++ map c_writer tbs) in
+  Forall (fun l => forall a, c_ans l = Some a ->
+            exists tb, nth_error (cm_tables (fst r)) (c_gen l) = Some tb /\ a = c_alone hmatch tb (c_req l) (c_drawn l)) (snd r).
+Proof. exact lookup_conc_every_schedule_l. Qed.
+Print Assumptions C06_lookup_conc_every_schedule.
+
+(* the inductive invariant behind it, from any state satisfying it *)
+Theorem C06_lookup_conc_inv : forall hmatch size sched s ts, 0 < size -> c_inv hmatch size s ts ->
+  c_inv hmatch size (fst (run (c_step hmatch) sched s ts)) (snd (run (c_step hmatch) sched s ts)).
+Proof. exact lookup_conc_inv_l. Qed.
+Print Assumptions C06_lookup_conc_inv.
